@@ -56,12 +56,12 @@ func zzH_C10_api() {
 		presetVary = zzBool()
 	}
 	if presetVary {
-		preset = http.Header{zzVary: {"X-Pre"}}
+		preset = http.Header{zzVary: {zzPreVary}}
 	}
 	_, r1 := zzServe(s.m, q1, preset, &zzHandler{})
 	vo, vm, vh, vp := zzVaryNames(r1.h[zzVary])
 	if presetVary {
-		zzAssert(len(r1.h[zzVary]) >= 1 && r1.h[zzVary][0] == "X-Pre", "pre-existing Vary value lost")
+		zzAssert(len(r1.h[zzVary]) >= 1 && r1.h[zzVary][0] == zzPreVary, "pre-existing Vary value lost")
 	}
 	// second request: same method; headers named by Vary shared with the
 	// first request, all others replaced together by one of three variants:
@@ -100,7 +100,7 @@ func zzH_C10_api() {
 	q2 := zzMkRequest(q1.method, o, am, ah, ap, hasO, hasM, hasH, hasP)
 	var preset2 http.Header
 	if presetVary {
-		preset2 = http.Header{zzVary: {"X-Pre"}}
+		preset2 = http.Header{zzVary: {zzPreVary}}
 	}
 	_, r2 := zzServe(s.m, q2, preset2, &zzHandler{})
 	zzAssert(r1.status == r2.status, "Vary-equivalent requests got different statuses")
